@@ -136,29 +136,38 @@ func runConc(c *core.Ctx, t *core.Trace, gen string, cas int, calls []call, roun
 
 // concInputs: the long byte strings come in groups of equal length (a reused buffer is shared by
 // strings that fit into it) with different contents, then lengths in between and short ones; a few
-// inputs of every other family run along.
-func concInputs(c *core.Ctx, gen string, cas int) []call {
+// inputs of every other family run along.  small: no long strings, many inputs of the other
+// families instead (their calls are short: they overlap only if there is nothing long in between).
+func concInputs(c *core.Ctx, gen string, cas int, small bool) []call {
 	r := c.Rng(gen+"/in", cas)
 	var cs []call
 	str := func(n int) {
 		b := randContent(r, n)
 		cs = append(cs, bytesCall(b, seedFor(r), r.Intn(n+1)))
 	}
-	long := c.Pick(512, 1024) + 8*r.Intn(16) + r.Intn(8)
-	for k := 0; k < c.Pick(4, 6); k++ {
-		str(long)
+	others := 2
+	if small {
+		others = 6
+		for k := 0; k < 8; k++ {
+			str([]int{r.Intn(4), 4 + r.Intn(8), 12 + r.Intn(20), 32 + r.Intn(32)}[k%4])
+		}
+	} else {
+		long := c.Pick(512, 1024) + 8*r.Intn(16) + r.Intn(8)
+		for k := 0; k < c.Pick(4, 6); k++ {
+			str(long)
+		}
+		str(long / 2)
+		str(long/4 + r.Intn(8))
+		for k := 0; k < 4; k++ {
+			str([]int{r.Intn(8), 8 + r.Intn(24), 32 + r.Intn(96), 128 + r.Intn(128)}[k])
+		}
 	}
-	str(long / 2)
-	str(long/4 + r.Intn(8))
-	for k := 0; k < 4; k++ {
-		str([]int{r.Intn(8), 8 + r.Intn(24), 32 + r.Intn(96), 128 + r.Intn(128)}[k])
-	}
-	for k := 0; k < 2; k++ {
+	for k := 0; k < others; k++ {
 		a := r.Uint32()
 		cs = append(cs, ipCall(a), ipParseCall(leadingZeros(r, r.Uint32())), hexaCall(int64(rand64(r))),
 			hexaDecCall(string(refH32Enc(int64(rand64(r))))), longCall(rand64(r)), intCall(r.Uint32()),
 			bitCall([]int{1, 2, 4}[r.Intn(3)], r.Uint32(), r.Uint32(), r.Uint64()))
-		if k == 0 {
+		if k%2 == 0 {
 			cs = append(cs, ipParseCall(canonText(a)))
 		}
 	}
